@@ -105,7 +105,14 @@ func runScript(r *vlib.Run, sp scriptSpec, jm *jitterMon) {
 
 	// ---- clients; the control name is resolved and cached while the universe
 	// is still honest
-	cl, err := newClients(e.st.Addrs().UDP, 16)
+	nSocks := 16
+	if tw.ListenV6 {
+		// lo carries ::1 only: every client (and the one possible port-0 poison
+		// source) differs in its port alone, so a larger pool is what spreads
+		// the clients over the server's reuseport sockets
+		nSocks = 32
+	}
+	cl, err := newClients(e.st.Addrs().UDP, nSocks)
 	if err != nil {
 		r.Inconclusive(fmt.Sprintf("script %s: client sockets: %v", sp.Name, err))
 		return
